@@ -120,6 +120,18 @@ class Model:
         exp.resolved.append(path)
         if node.name == "__typename":
             return tname
+        if node.name == "__schema":
+            # fixed shape: __schema { queryType { name } }
+            exp.resolved.append(path + ("queryType",))
+            exp.resolved.append(path + ("queryType", "name"))
+            return {"queryType": {"name": self.spec.query}}
+        if node.name == "__type":
+            t = node.kwargs["name"]
+            exp.resolved.append(path + ("name",))
+            exp.resolved.append(path + ("kind",))
+            kind = ("OBJECT" if t in self.spec.objects else
+                    "INTERFACE" if t in self.spec.interfaces else "UNION")
+            return {"name": t, "kind": kind}
         if node.argerr:
             # assembling the arguments fails: a field error, the resolver is
             # never invoked (field hooks still fire, start and end)
